@@ -10,6 +10,7 @@ import pickle
 import random
 
 PLAIN = ["bfs", "dfs", "min", "attr", "target", "block_plain", "succ"]
+PLAIN_Q = PLAIN + ["pn", "cand", "seeds"]  # plus pure queries that only cache per-node data
 SKIPS = ["skip", "skiprem", "min_skip"]
 SHORTCUTS = ["block", "scc"]
 QUERIES = ["cand", "seeds", "sets", "xseeds", "xcand", "xsets"]
@@ -59,6 +60,8 @@ def gen_op(rng: random.Random, kind: str):
         return ["scc", rng.random() < 0.6]
     if kind == "succ":
         return ["succ", rng.randrange(64)]
+    if kind == "pn":
+        return ["pn", rng.randrange(64)]
     if kind == "skip":
         return ["skip", rng.randrange(64)]
     if kind == "skiprem":
@@ -158,6 +161,11 @@ def apply_op(sd, op, ref, control_mod=None):
             r = sd.expand_scc(op[1])
         elif kind == "succ":
             r = sorted(sd.node_successors(_node(sd, op[1]), compute=True))
+        elif kind == "pn":
+            i = _node(sd, op[1])
+            sd.node_percolated_petri_net(i, compute=True)
+            sd.node_percolated_network(i, compute=True)
+            r = None
         elif kind == "skip":
             r = sd.skip_to_minimal(_node(sd, op[1]))
         elif kind == "skiprem":
